@@ -15,6 +15,7 @@ Relies on the documented semantics of Iterator::take / rposition / enumerate; th
 import q
 import render
 import invariants
+import totality as T
 from q import res, is_param, is_param_path, strip_casts, show, alts, walk, expand
 
 LY = 'asefile::layer::'
@@ -231,10 +232,32 @@ def level_source(ctx):
     ctx.floor('LayerData constructions in layer::parse_chunk', n, 1)
 
 
+def layer_cap(ctx):
+    """V8: a cel addresses its layer with a WORD, so 65536 layers (and with them nesting level 65535, reachable only by layer 65535) are
+    legal.  LayersData::from_vec may turn away only len > 65536; a smaller cap (seed C09-h: the constant lost its + 1) refuses the
+    deepest legal forest.  That the cap is not larger is I13's business (layer ids must fit u16)."""
+    b = ctx.anchor(LY + 'LayersData::from_vec')
+    if b is None:
+        return
+    n = 0
+    for sw, facts, cond in T.rejections(b):
+        hs = [(op, l, r_) for op, l, r_ in facts if l[0] == 'call' and l[1] in T.LEN and is_param(l[2][0], 1)]
+        if not hs:
+            continue
+        n += 1
+        op, l, r_ = hs[0]
+        k = q.const_fold(r_)
+        above = {'Gt': k, 'Ge': k - 1}.get(op) if k is not None else None
+        ok = above is not None and above >= 65536
+        ctx.inst('V8', 'layer cap', ok, 'from_vec rejects layers.len() %s %s; 65536 layers are addressable by a cel, so only len > 65536 may be rejected'
+                 % (op, k if k is not None else show(r_)[:40]), b.blocks[sw]['term'].get('span'), key=b.name + '|V8|cap')
+    ctx.floor('rejections on the layer count in from_vec', n, 1)
+
+
 def run(ctx):
     ctx.rules = ['V1 visibility = AND over the ancestor chain', 'V2 hidden layers are not drawn', 'V3 parent table shape (I10)',
                  'V4 nearest preceding lower-level search', 'V5 no parent iff level 0', 'V6 parent() accessor',
-                 'V7 the level compared is the unnarrowed 16-bit file field']
+                 'V7 the level compared is the unnarrowed 16-bit file field', 'V8 no layer cap below the addressable 65536']
     ctx.assumptions += ['Iterator::enumerate/take/rposition behave as documented (rposition = index of the last match)',
                         'LayerFlags::VISIBLE is bit 1 (checked by C01 L2/L3 for the flags getter)']
     ctx.explanation = (
@@ -256,4 +279,5 @@ def run(ctx):
     parent_search(ctx)
     accessor(ctx)
     level_source(ctx)
+    layer_cap(ctx)
     ctx.samples = [i for i in ctx.instances][:14]
